@@ -204,8 +204,21 @@ def coq_proofs(prop_id, timeout=1500):
             os.remove(vfile[:-2] + ext)
         except FileNotFoundError:
             pass
+    targets = [target]
+    # the oracle (and anything else the case evaluation imports) must be rebuilt in the same make run,
+    # otherwise a stale .vo gives "inconsistent assumptions" in coqtop
+    if os.path.exists(os.path.join(COQ, "Oracle/%s.v" % prop_id)):
+        targets.append("Oracle/%s.vo" % prop_id)
     try:
-        rc, o, e = sh(["make", "-j%d" % NCPU, target], cwd=COQ, timeout=timeout)
+        mod = load_prop(prop_id)
+        for m in re.findall(r"\b((?:Lib|Model|Proofs|Oracle)\.\w+)", getattr(mod, "COQ_IMPORTS", "")):
+            t = m.replace(".", "/") + ".vo"
+            if t not in targets and os.path.exists(os.path.join(COQ, m.replace(".", "/") + ".v")):
+                targets.append(t)
+    except Exception:
+        pass
+    try:
+        rc, o, e = sh(["make", "-j%d" % NCPU] + targets, cwd=COQ, timeout=timeout)
     except subprocess.TimeoutExpired:
         res["log"] = "coq build timed out"
         return res
